@@ -48,6 +48,10 @@ NP_OF = {
                               'compare_discretization_api_directed', 'compare_discretization_api_other'])],
     'C07': [('MsmCummat', ['_get_cummat']), ('MsmMcmcApi', ['propagate_MCMC']), ('UtilsDatasets', ['propagate_tmat_start', 'propagate_tmat_random'])],
     'C08': [('MsmCummat', ['_get_cummat']), ('MsmTimes', ['estimate_times_list', 'estimate_times_hist']), ('StateTrajBase', ['state_to_idx'])],
+    'C10': [('MsmLinalg', ['eigenvectors_n', 'eigenvectors_all', 'eigenvalues_n', 'eigenvalues_all', 'left_eigenvectors_n', 'left_eigenvectors_all',
+                           'right_eigenvectors_n', 'right_eigenvectors_all', 'left_eigenvalues_n', 'left_eigenvalues_all', 'right_eigenvalues_n',
+                           'right_eigenvalues_all']),
+            ('MsmIts', ['_implied_timescales', 'implied_timescales_default', 'implied_timescales_n'])],
 }
 for _pid, _mods in NP_OF.items():
     KERNELS_OF.setdefault(_pid, [])
@@ -57,7 +61,8 @@ SOURCE_OF = {'MsmMsm': 'msm/msm.py', 'MdCorrections': 'md/corrections.py', 'MdTi
              'UtilsTests': 'utils/tests.py', 'MsmNorm': 'msm/msm.py', 'PlotCkTest': 'plot/_ck_test.py', 'MsmTests': 'msm/tests.py',
              'StateTrajHS': 'statetraj.py', 'MsmCummat': 'msm/timescales.py', 'MsmTimes': 'msm/timescales.py', 'StateTrajBase': 'statetraj.py',
              'UtilsRelabel': 'utils/_utils.py', 'StateTrajInit': 'statetraj.py', 'StateTrajAcc': 'statetraj.py', 'LumpedAcc': 'statetraj.py', 'StateTrajEst': 'statetraj.py', 'LumpedEst': 'statetraj.py', 'MsmEstimate': 'msm/msm.py', 'MsmMcmcApi': 'msm/timescales.py', 'UtilsFiltering': 'utils/filtering.py', 'IoLimits': 'io.py',
-             'UtilsDatasets': 'utils/datasets.py', 'MsmCkApi': 'msm/tests.py', 'MdCompareApi': 'md/comparison.py', 'MdTimesApi': 'md/timescales.py', 'MdCoringApi': 'md/corrections.py'}
+             'UtilsDatasets': 'utils/datasets.py', 'MsmCkApi': 'msm/tests.py', 'MdCompareApi': 'md/comparison.py', 'MdTimesApi': 'md/timescales.py', 'MdCoringApi': 'md/corrections.py',
+             'MsmLinalg': 'msm/utils/linalg.py', 'MsmIts': 'msm/timescales.py'}
 ATOL = 1e-8
 G = 1 << 53
 
@@ -202,6 +207,49 @@ def gen_cases(module, kernel, rng, n):
             n = rng.randint(0, 24)
             arr = sorted(rng.sample(range(-5, 60), n))
             yield {'k': kernel, 'args': [arr, rng.choice([0, 1, 1, 2, 3, 4, 5, 6, 7, 12, 30])], 'mode': 'py'}
+        elif module in ('MsmLinalg', 'MsmIts') and kernel not in ('implied_timescales_default', 'implied_timescales_n'):
+            # square (mostly stochastic) float matrices: random dense / sparse, symmetric, cyclic (complex spectrum), with a trap, non-square
+            n_ = rng.randint(1, 5)
+            form = rng.choice(['dense', 'dense', 'sparse', 'sym', 'cycle', 'cycle_noise', 'signed', 'nonsquare', 'periodic2'])
+            import numpy as _np
+            if form == 'cycle' or form == 'cycle_noise':
+                n_ = max(n_, 3)
+                m = _np.roll(_np.eye(n_), 1, axis=1)
+                if form == 'cycle_noise':
+                    m = 0.75 * m + 0.25 * _np.array([[rng.random() for _ in range(n_)] for _ in range(n_)])
+            elif form == 'periodic2':
+                n_ = 2
+                m = _np.array([[0.0, 1.0], [1.0, 0.0]])
+            else:
+                m = _np.array([[rng.random() if (form != 'sparse' or rng.random() < 0.5) else 0.0 for _ in range(n_)] for _ in range(n_)])
+                if form == 'sym':
+                    m = m + m.T
+                if form == 'signed':
+                    m = m - 0.5
+                if form == 'nonsquare':
+                    m = m[:, : max(1, n_ - 1)] if n_ > 1 else _np.array([[0.5, 0.5]])
+            if form != 'signed':
+                rs = m.sum(axis=1, keepdims=True)
+                rs[rs == 0] = 1
+                m = m / rs
+            nv = rng.randint(1, n_ + 1)
+            c_ = {'k': kernel, 'args': None, 'floats': m.tolist(), 'nvals': nv, 'lag': rng.choice([1, 2, 5, 10]), 'mode': 'py', 'form': form}
+            yield c_
+        elif module == 'MsmIts':
+            ns_ = rng.randint(1, 4)
+            labs = sorted(rng.sample(range(-5, 30), ns_))
+            if rng.random() < 0.3 and ns_ >= 3:
+                t = [labs[i % ns_] for i in range(rng.randint(8, 20))]          # a cyclic walk: complex eigenvalues
+            else:
+                t = [labs[i] for i in _sticky(rng, rng.randint(8, 24), ns_)]
+            for l_ in labs:
+                if l_ not in t:
+                    t.append(l_)
+            lags = [rng.randint(1, 4) for _ in range(rng.randint(1, 3))]
+            if rng.random() < 0.12:
+                lags[rng.randrange(len(lags))] = rng.choice([0, -1])
+            nts = rng.randint(0, ns_) if kernel == 'implied_timescales_n' else None
+            yield {'k': kernel, 'args': None, 'trajs': [t], 'lags': lags, 'nts': nts, 'reversible': rng.random() < 0.08, 'mode': 'py'}
         elif module == 'MsmCkApi':
             ns_ = rng.randint(2, 3)
             labs = sorted(rng.sample(range(-5, 30), ns_))
@@ -485,6 +533,78 @@ def real_one(module, case):
         inputs, fn = None, None
         if module != 'StateTrajBase':
             fn = getattr(mod, 'runningmean' if module == 'UtilsFiltering' else 'open_limits')
+    elif module in ('MsmLinalg', 'MsmIts'):
+        import msmhelper as mh
+        import warnings
+        fn = None
+        lin = importlib.import_module('msmhelper.msm.utils.linalg')
+        rec = {'eig': [], 'argsort_cx': [], 'log': []}
+
+        def cx(z):
+            z = complex(z)
+            if z != z:
+                return None
+            return [core.rat_str(z.real), core.rat_str(z.imag)]
+
+        def cxs(v):
+            return [cx(z) for z in np.asarray(v).ravel()] if np.asarray(v).ndim == 1 else [[cx(z) for z in row] for row in np.asarray(v)]
+
+        real_eig = np.linalg.eig
+
+        def spy_eig(mat):
+            w, v = real_eig(mat)
+            rec['eig'].append([_ratmat(np.asarray(mat, dtype=np.float64).tolist()), [cxs(w), cxs(v)]])
+            rec['argsort_cx'].append([cxs(w), [int(i) for i in w.argsort()]])
+            for z in w:
+                # what `np.log` answers on this eigenvalue (as it is, and as its real part — `real_if_close` may have dropped the imaginary part)
+                for zz in (complex(z), complex(z.real, 0.0)):
+                    if zz == zz and zz != 0:
+                        with np.errstate(all='ignore'):
+                            lg = np.log(zz.real) if (zz.imag == 0 and zz.real > 0) else np.log(zz)
+                        rec['log'].append([cx(zz), cx(lg)])
+            return w, v
+
+        def with_spy(thunk):
+            def _run():
+                np.linalg.eig = spy_eig
+                try:
+                    with warnings.catch_warnings():
+                        warnings.simplefilter('ignore')
+                        return thunk()
+                finally:
+                    np.linalg.eig = real_eig
+            return _run
+        if 'floats' in case:
+            mat = np.array(case['floats'], dtype=np.float64)
+            if k == '_implied_timescales':
+                inputs = {'args': [_ratmat(case['floats']), case['lag'], case['nvals'] - 1], '_rec3': rec}
+                case = dict(case, _run=with_spy(lambda: cxs(mod._implied_timescales(mat, case['lag'], case['nvals'] - 1))))
+            else:
+                pyname = k[:-2] if k.endswith('_n') else k[:-4]
+                pyname = pyname if pyname.startswith(('left', 'right')) else '_' + pyname
+                f_ = getattr(lin, pyname)
+                allv = k.endswith('_all')
+                inputs = {'args': [_ratmat(case['floats'])] + ([] if allv else [case['nvals']]), '_rec3': rec}
+
+                def thunk():
+                    res = f_(mat, None if allv else case['nvals'])
+                    return [cxs(res[0]), cxs(res[1])] if isinstance(res, tuple) else cxs(res)
+                case = dict(case, _run=with_spy(thunk))
+        else:
+            try:
+                obj = mh.StateTraj([np.array(t, dtype=np.int64) for t in case['trajs']])
+            except Exception as e:  # noqa
+                return {'skip': core.err_name(e)}
+            table = []
+            for l_ in sorted(set(x for x in case['lags'] if x > 0)):
+                try:
+                    T, st_ = obj.estimate_markov_model(int(l_))
+                    table.append([int(l_), [_ratmat(np.asarray(T).tolist()), [int(x) for x in st_]]])
+                except Exception:  # noqa
+                    pass
+            rec['estimate'] = table
+            inputs = {'args': [int(obj.nstates), case['lags']] + ([] if case['nts'] is None else [case['nts']]) + [bool(case['reversible'])], '_rec3': rec}
+            case = dict(case, _run=with_spy(lambda: cxs(mod.implied_timescales(obj, case['lags'], ntimescales=case['nts'], reversible=case['reversible']))))
     elif module == 'MsmCkApi':
         import msmhelper as mh
         fn = None
@@ -834,7 +954,7 @@ def real_one(module, case):
                 return [int(v) for v in mod.propagate_MCMC(mh.StateTraj([np.array(a[0], dtype=np.int64)]), a[1], a[2], start=a[3])]
             finally:
                 mod._get_cummat, mod._propagate_MCMC, np.random.choice = o_cm, o_pr, o_ch
-        if module == 'MsmCkApi':
+        if module in ('MsmCkApi', 'MsmLinalg', 'MsmIts'):
             return case['_run']()
         if module in ('MsmTimes', 'MdCompareApi', 'MdTimesApi', 'MdCoringApi', 'StateTrajAcc', 'LumpedAcc', 'StateTrajEst', 'LumpedEst') or (module == 'MsmTests' and k != '_calc_times'):
             return case['_run']()
@@ -888,6 +1008,9 @@ def real_one(module, case):
         rec2 = inputs.pop('_rec2', None)
         if rec2 is not None:
             inputs['oracle'] = {k_: rec2[k_] for k_ in ('choice', 'cummat', 'estimator') if k_ in rec2}
+        rec3 = inputs.pop('_rec3', None)
+        if rec3 is not None:
+            inputs['oracle'] = rec3
         rec = inputs.pop('_rec', None)
         if rec is not None:
             if 'eig' in rec:
@@ -943,6 +1066,9 @@ def run_real(module, cases):
     res, pos = [], 0
     env = dict(os.environ)
     env.setdefault('NUMBA_NUM_THREADS', '2')
+    src = os.path.join(core.REPO, 'src')          # the working tree, never an installed copy
+    if src not in env.get('PYTHONPATH', '').split(os.pathsep):
+        env['PYTHONPATH'] = src + os.pathsep + os.path.dirname(os.path.abspath(__file__)) + (os.pathsep + env['PYTHONPATH'] if env.get('PYTHONPATH') else '')
     attempts = 0
     while pos < len(cases) and attempts < 6:
         attempts += 1
@@ -989,6 +1115,23 @@ def same(case, real, gen):
                 if abs(fx - fy) > Fraction(1, 10 ** 14):
                     return False
         return True
+    if case.get('np') and (k.startswith(('eigen', 'left_eigen', 'right_eigen')) or 'implied_timescales' in k):
+        exact = 'implied' not in k
+
+        def cx_same(x, y):
+            if x is None or y is None:
+                return x is None and y is None
+            if isinstance(x, list) and len(x) == 2 and not isinstance(x[0], list) and isinstance(x[0], str):
+                for u, v in zip(x, y):
+                    fu, fv = Fraction(u), Fraction(v)
+                    if exact:
+                        if fu != fv:
+                            return False
+                    elif abs(fu - fv) > Fraction(1, 10 ** 11) * (abs(fu) + abs(fv)):
+                        return False
+                return True
+            return isinstance(y, list) and len(x) == len(y) and all(cx_same(u, v) for u, v in zip(x, y))
+        return cx_same(r, g)
     if k == 'chapman_kolmogorov_test':
         def unnest(cur, n_):
             flat = []
